@@ -60,7 +60,9 @@ class St:
             kw['_boundaries'] = {k: _copy_tag(v) for k, v in self.b.items()}
         if self.s is not None:
             kw['_subdomains'] = {k: np.array(v, copy=True) for k, v in self.s.items()}
-        return _cls(self.cls)(self.p.copy(), self.t.copy(), **kw)
+        tdt = kw.pop('t_dtype', None)      # hand the connectivity over in another integer dtype (same values)
+        t = self.t.copy() if tdt is None else self.t.astype(tdt)
+        return _cls(self.cls)(self.p.copy(), t, **kw)
 
     def key(self):
         h = hashlib.sha1()
